@@ -34,6 +34,7 @@
 #include <memory>
 #include <stdexcept>
 #include <string>
+#include <sstream>
 #include <string_view>
 #include <sys/mman.h>
 #include <unistd.h>
@@ -43,6 +44,18 @@ typedef tlx::StringView TV;
 typedef std::string_view SV;
 static const size_t NPOS = static_cast<size_t>(-1);
 static const uint64_t MASK = (1ull << 62) - 1;
+
+// starts_with / ends_with: members of tlx::StringView and of C++20's std::string_view; when this file is compiled as C++17
+// (second binary of the check: same overload sets as most users of tlx see) the reference side uses the standard's
+// "equivalent to" definitions
+template <class V, class X> bool sw(const V& v, const X& x) { return v.starts_with(x); }
+template <class V, class X> bool ew(const V& v, const X& x) { return v.ends_with(x); }
+#if __cplusplus <= 201703L
+inline bool sw(const SV& v, const SV& x) { return v.substr(0, x.size()) == x; }
+inline bool ew(const SV& v, const SV& x) { return v.size() >= x.size() && v.compare(v.size() - x.size(), SV::npos, x) == 0; }
+inline bool sw(const SV& v, const char& c) { return !v.empty() && v.front() == c; }
+inline bool ew(const SV& v, const char& c) { return !v.empty() && v.back() == c; }
+#endif
 
 struct Vals {
     int n = 0;
@@ -229,6 +242,40 @@ static void run_hay(Block& b) {
     }
     b.call2("to_string", {}, [](Vals& o, TV v, TV) { o.str(v.to_string()); }, [](Vals& o, SV v, SV) { o.str(std::string(v)); });
     b.call("string_conv", {}, [](Vals& o, auto v, auto) { std::string s(v); o.str(s); });
+    // ---- entry points beyond the queries (audit docs/audit/C18.md): the explicit conversion operator (std::string s(v)
+    // above goes through operator std::string_view in C++17), iterators, every constructor, clear, clamping, operator<<
+    b.call2("operator_string", {}, [](Vals& o, TV v, TV) { o.str(v.operator std::string()); }, [](Vals& o, SV v, SV) { o.str(std::string(v)); });
+    b.call("iter_fwd", {}, [](Vals& o, auto v, auto) { o.push(v.end() - v.begin()); for (auto it = v.begin(); it != v.end(); ++it) o.ch(*it); });
+    b.call("iter_cfwd", {}, [](Vals& o, auto v, auto) { o.push(v.cend() - v.cbegin()); for (auto it = v.cbegin(); it != v.cend(); ++it) o.ch(*it); });
+    b.call("iter_rev", {}, [](Vals& o, auto v, auto) { o.push(v.rend() - v.rbegin()); for (auto it = v.rbegin(); it != v.rend(); ++it) o.ch(*it); });
+    b.call("iter_crev", {}, [](Vals& o, auto v, auto) { o.push(v.crend() - v.crbegin()); for (auto it = v.crbegin(); it != v.crend(); ++it) o.ch(*it); });
+    {
+        const std::string hs = h;                          // an owning copy for the std::string based constructors
+        const char* p = b.T.data(); const size_t n = h.size();
+        b.call2("ctor_string", {}, [&](Vals& o, TV, TV) { TV c(hs); o.str(c); }, [&](Vals& o, SV, SV) { SV c(hs); o.str(c); });
+        b.call2("ctor_string_rvalue", {}, [&](Vals& o, TV, TV) { std::string tmp = hs; TV c(std::move(tmp)); o.str(c); },
+                [&](Vals& o, SV, SV) { std::string tmp = hs; SV c(tmp); o.str(c); });
+        b.call2("ctor_cstr", {}, [&](Vals& o, TV, TV) { TV c(hs.c_str()); o.str(c); }, [&](Vals& o, SV, SV) { SV c(hs.c_str()); o.str(c); });
+        b.call2("ctor_ptr_pair", {}, [=](Vals& o, TV, TV) { TV c(p, p + n); o.view(c, p); }, [=](Vals& o, SV, SV) { SV c(p, n); o.view(c, p); });
+        b.call2("ctor_string_iter_n", {}, [&](Vals& o, TV, TV) { TV c(hs.begin(), hs.size()); o.view(c, hs.data()); },
+                [&](Vals& o, SV, SV) { SV c(hs); o.view(c, hs.data()); });
+        b.call2("ctor_string_iter_pair", {}, [&](Vals& o, TV, TV) { TV c(hs.begin(), hs.end()); o.view(c, hs.data()); },
+                [&](Vals& o, SV, SV) { SV c(hs); o.view(c, hs.data()); });
+        b.call2("ctor_std_string_view", {}, [=](Vals& o, TV v, TV) { SV s(v); TV c(s); o.view(c, p); }, [=](Vals& o, SV v, SV) { SV c(v); o.view(c, p); });
+        b.call2("ctor_null_cstr", {}, [](Vals& o, TV, TV) { TV c(static_cast<const char*>(nullptr)); o.size_t_(c.size()); o.boolean(c.data() == nullptr); o.boolean(c == TV()); },
+                [](Vals& o, SV, SV) { SV c; o.size_t_(c.size()); o.boolean(c.data() == nullptr); o.boolean(c == SV()); });
+        b.call("copy_assign", {}, [=](Vals& o, auto v, auto x) { auto c(v); decltype(v) d; d = v; o.view(c, p); o.size_t_(d.size()); o.push(d.data() - p); (void)x; });
+    }
+    b.call2("clear", {}, [=](Vals& o, TV v, TV) { v.clear(); o.view(v, base); }, [=](Vals& o, SV v, SV) { v.remove_suffix(v.size()); o.view(v, base); });
+    // remove_prefix / remove_suffix beyond size(): undefined for std::string_view, tlx clamps n to size() (documented by the code
+    // only); checked against the model's clamp and against std::string_view called with min(n, size())
+    for (size_t n : {h.size() + 1, h.size() + 2, NPOS - 1, NPOS}) {
+        b.call2("remove_prefix_clamped", {L(n)}, [=](Vals& o, TV v, TV) { v.remove_prefix(n); o.view(v, base); },
+                [=](Vals& o, SV v, SV) { v.remove_prefix(std::min(n, v.size())); o.view(v, base); });
+        b.call2("remove_suffix_clamped", {L(n)}, [=](Vals& o, TV v, TV) { v.remove_suffix(n); o.view(v, base); },
+                [=](Vals& o, SV v, SV) { v.remove_suffix(std::min(n, v.size())); o.view(v, base); });
+    }
+    b.call("stream_insert", {}, [](Vals& o, auto v, auto) { std::ostringstream os; os << v << '|' << 7; o.str(os.str()); });
     for (size_t pos : P) for (size_t n : N)
         b.call("substr", {L(pos), L(n)}, [=](Vals& o, auto v, auto) { auto r = v.substr(pos, n); o.view(r, v.data()); });
     auto do_copy = [&b](size_t n, size_t pos) {
@@ -242,8 +289,8 @@ static void run_hay(Block& b) {
     for (size_t pos : P) for (size_t n : N) do_copy(n, pos);
     for (char c : ALPHA5) {
         long lc = static_cast<unsigned char>(c);
-        b.call("starts_with_char", {lc}, [=](Vals& o, auto v, auto) { o.boolean(v.starts_with(c)); });
-        b.call("ends_with_char", {lc}, [=](Vals& o, auto v, auto) { o.boolean(v.ends_with(c)); });
+        b.call("starts_with_char", {lc}, [=](Vals& o, auto v, auto) { o.boolean(sw(v, c)); });
+        b.call("ends_with_char", {lc}, [=](Vals& o, auto v, auto) { o.boolean(ew(v, c)); });
         for (size_t pos : P) {
             b.call("find_char", {lc, L(pos)}, [=](Vals& o, auto v, auto) { o.size_t_(v.find(c, pos)); });
             b.call("rfind_char", {lc, L(pos)}, [=](Vals& o, auto v, auto) { o.size_t_(v.rfind(c, pos)); });
@@ -308,8 +355,13 @@ static void block_pair(const std::string& h, const std::string& s, bool verbose,
     b.call("rel_cstr_sv", {}, [=](Vals& o, auto v, auto) {
         o.boolean(cs == v); o.boolean(cs != v); o.boolean(cs < v); o.boolean(cs > v); o.boolean(cs <= v); o.boolean(cs >= v); });
     b.call("compare_cstr", {}, [=](Vals& o, auto v, auto) { o.sign(v.compare(cs)); });
-    b.call("starts_with", {}, [](Vals& o, auto v, auto x) { o.boolean(v.starts_with(x)); });
-    b.call("ends_with", {}, [](Vals& o, auto v, auto x) { o.boolean(v.ends_with(x)); });
+    b.call("starts_with", {}, [](Vals& o, auto v, auto x) { o.boolean(sw(v, x)); });
+    b.call("ends_with", {}, [](Vals& o, auto v, auto x) { o.boolean(ew(v, x)); });
+    b.call("swap", {}, [](Vals& o, auto v, auto x) { v.swap(x); o.str(v); if (o.n + x.size() + 1 <= 64) o.str(x); });
+    // std::hash: equal views hash equally (also a view over a copy of the bytes elsewhere in memory)
+    b.call("hash_consistent", {}, [](Vals& o, auto v, auto x) {
+        std::hash<decltype(v)> hf; std::string c(v.data(), v.size()); decltype(v) w(c.data(), c.size());
+        o.boolean(hf(v) == hf(w)); o.boolean(!(v == x) || hf(v) == hf(x)); });
     for (size_t pos : P) {
         b.call("find", {L(pos)}, [=](Vals& o, auto v, auto x) { o.size_t_(v.find(x, pos)); });
         b.call("rfind", {L(pos)}, [=](Vals& o, auto v, auto x) { o.size_t_(v.rfind(x, pos)); });
@@ -333,7 +385,8 @@ static void block_pair(const std::string& h, const std::string& s, bool verbose,
         b.call("find_last_not_of_cstr", {L(pos)}, [=](Vals& o, auto v, auto) { o.size_t_(v.find_last_not_of(cs, pos)); });
     }
     for (size_t pos1 : P) for (size_t n1 : N1) {
-        if (pos1 > h.size() && n1 != 0 && n1 != NPOS) continue;   // throwing calls: count is irrelevant, keep two
+        // throwing calls: the count is irrelevant; all counts for short operands, two otherwise (cost of the exceptions)
+        if (pos1 > h.size() && n1 != 0 && n1 != NPOS && !(s.size() <= 1 && h.size() <= 3)) continue;
         b.call("compare3", {L(pos1), L(n1)}, [=](Vals& o, auto v, auto x) { o.sign(v.compare(pos1, n1, x)); });
     }
     for (size_t n = 0; n < sn; ++n) for (size_t pos : {size_t(0), NPOS}) {      // (ptr, pos, n) with n < |s|: a prefix of the needle
@@ -382,8 +435,8 @@ static void block_alias(const std::string& buf, size_t o1, size_t l1, size_t o2,
     b.call("rel_cstr_sv", {}, [=](Vals& o, auto v, auto) {
         o.boolean(cs == v); o.boolean(cs != v); o.boolean(cs < v); o.boolean(cs > v); o.boolean(cs <= v); o.boolean(cs >= v); });
     b.call("compare_cstr", {}, [=](Vals& o, auto v, auto) { o.sign(v.compare(cs)); });
-    b.call("starts_with", {}, [](Vals& o, auto v, auto x) { o.boolean(v.starts_with(x)); });
-    b.call("ends_with", {}, [](Vals& o, auto v, auto x) { o.boolean(v.ends_with(x)); });
+    b.call("starts_with", {}, [](Vals& o, auto v, auto x) { o.boolean(sw(v, x)); });
+    b.call("ends_with", {}, [](Vals& o, auto v, auto x) { o.boolean(ew(v, x)); });
     for (size_t pos : P) {
         b.call("find", {L(pos)}, [=](Vals& o, auto v, auto x) { o.size_t_(v.find(x, pos)); });
         b.call("rfind", {L(pos)}, [=](Vals& o, auto v, auto x) { o.size_t_(v.rfind(x, pos)); });
@@ -447,11 +500,11 @@ static void block_huge(size_t SZ, const std::string& s, bool verbose) {
     b.call("rel_sv_rev", {}, [](Vals& o, auto v, auto x) {
         o.boolean(x == v); o.boolean(x != v); o.boolean(x < v); o.boolean(x > v); o.boolean(x <= v); o.boolean(x >= v); });
     b.call("compare_cstr", {}, [=](Vals& o, auto v, auto) { o.sign(v.compare(cs)); });
-    b.call("starts_with", {}, [](Vals& o, auto v, auto x) { o.boolean(v.starts_with(x)); });
-    b.call("ends_with", {}, [](Vals& o, auto v, auto x) { o.boolean(v.ends_with(x)); });
-    b.call("starts_with_char", {0}, [](Vals& o, auto v, auto) { o.boolean(v.starts_with('\0')); });
-    b.call("ends_with_char", {0}, [](Vals& o, auto v, auto) { o.boolean(v.ends_with('\0')); });
-    b.call("ends_with_char", {'a'}, [](Vals& o, auto v, auto) { o.boolean(v.ends_with('a')); });
+    b.call("starts_with", {}, [](Vals& o, auto v, auto x) { o.boolean(sw(v, x)); });
+    b.call("ends_with", {}, [](Vals& o, auto v, auto x) { o.boolean(ew(v, x)); });
+    b.call("starts_with_char", {0}, [](Vals& o, auto v, auto) { o.boolean(sw(v, '\0')); });
+    b.call("ends_with_char", {0}, [](Vals& o, auto v, auto) { o.boolean(ew(v, '\0')); });
+    b.call("ends_with_char", {'a'}, [](Vals& o, auto v, auto) { o.boolean(ew(v, 'a')); });
 
     for (size_t pos1 : {size_t(0), size_t(1), SZ - 2, SZ - 1, SZ, SZ + 1, NPOS})
         for (size_t n1 : {size_t(0), size_t(1), size_t(3), G31, G32 + 1, NPOS - 1, NPOS}) {
